@@ -37,7 +37,7 @@ Script_1p1c3 == << <<S(11), S(12), S(13)>>, <<Dv(0, 3)>> >>
 Script_cancel == << <<S(11)>>, <<X>>, <<Dv(0, 9)>> >>
 Script_2s == << <<S(11), S(12)>>, <<Dv(0, 9)>>, <<Dv(1, 9)>>, <<X>> >>
 Script_close == << <<S(11)>>, <<Cl>>, <<Dv(0, 9), Dr(0)>> >>
-Script_close_s2 == << <<S(11), S(12)>>, <<Cl>>, <<Dv(0, 9), Dr(0)>>, <<Dv(1, 9), Dr(1)>> >>
+Script_close_s2 == << <<S(11)>>, <<Cl>>, <<Dv(0, 9), Dr(0)>>, <<Dv(1, 9), Dr(1)>> >>
 
 MCInit == UInit /\ opi = [p \in Procs |-> 1] /\ tpc = [p \in Procs |-> ""] /\ tgot = [p \in Procs |-> 0] /\ slept = [p \in Procs |-> FALSE]
 
